@@ -149,6 +149,7 @@ def walk_under(fn_node, decide):
     lists (kind, stmt, env) for every return/raise/fall-off reached."""
     evaluated = {}
     exits = []
+    _in_flag = []
     # single-assignment locals bound to a plain attribute chain are aliases: atoms are written in terms of the chain
     counts, vals = {}, {}
     for n in ast.walk(fn_node):
@@ -252,6 +253,29 @@ def walk_under(fn_node, decide):
             v = env[t]
             return [(env, (not v) if neg else v)]
         d = decide(t, env, e) if getattr(decide, "wants_env", False) else decide(t)
+        if d is None and isinstance(e, ast.Name) and not _in_flag:
+            # a local that holds the outcome of a call-free test on this execution (`changed = a.x != b.x` ... `if changed:`,
+            # the flag an inlined predicate helper leaves behind) is decided like that test
+            pv = None
+            _sts = env.get(STMTS, ())
+            for _i in range(len(_sts) - 1, -1, -1):
+                _s = _sts[_i]
+                if any(isinstance(x, ast.Name) and x.id == e.id and isinstance(x.ctx, ast.Store) for x in ast.walk(_s)):
+                    if isinstance(_s, ast.Assign) and len(_s.targets) == 1 and isinstance(_s.targets[0], ast.Name):
+                        used = {x.id for x in ast.walk(_s.value) if isinstance(x, ast.Name)}
+                        later = {x.id for y in _sts[_i + 1:] for x in ast.walk(y) if isinstance(x, ast.Name) and isinstance(x.ctx, ast.Store)}
+                        if not (used & later):
+                            pv = _s.value       # the test as written: the names it mentions still hold what they held then
+                    break
+            if pv is not None and isinstance(pv, (ast.Compare, ast.BoolOp, ast.UnaryOp, ast.Attribute, ast.Constant, ast.Name)) \
+                    and not any(isinstance(x, (ast.Call, ast.Await, ast.Yield, ast.YieldFrom, ast.Lambda)) for x in ast.walk(pv)) \
+                    and not any(isinstance(x, ast.Name) and x.id.startswith("$") for x in ast.walk(pv)) \
+                    and not (isinstance(pv, ast.Name) and pv.id == e.id):
+                _in_flag.append(1)
+                try:
+                    return truth(ast.fix_missing_locations(_clone_expr(pv)), env)
+                finally:
+                    _in_flag.pop()
         out = []
         for v in ([d] if d is not None else [True, False]):
             en = dict(env)
